@@ -162,6 +162,7 @@ class Server(object):
 
         self.have_mailfrom = None
         self.have_rcptto = None
+        self._check_close_code(reply)
 
     def _encrypt_session(self):
         try:
